@@ -795,6 +795,10 @@ def evo_editions(sc):
         e1 = assemble("g = 5\n", fdef(call="x"), "g")
     elif evo == "modgone":
         e1 = assemble(None if fm != gm else "", fdef(call="x"), False)
+    elif evo == "midgone":
+        # the callee's module is `top.mid.leaf`: the package `top.mid` disappears while `top` stays
+        e1 = assemble(None, fdef(call="x"), False)
+        e1[gm.split(".")[0] + ".keep"] = W.HEADER
     elif evo == "caller_body":
         e1 = assemble(gdef(cg, vg), fdef(extra="    y = x + 100\n"), "g")
     else:
@@ -973,6 +977,8 @@ def gen_evo(rng, idx, mode, backend, evo=None, cf="?", cg="?"):
     gm = fm if rng.random() < 0.5 else "c12e%d_p.b" % idx
     if evo == "modgone":
         gm = "c12e%d_p.b" % idx
+    if evo == "midgone":
+        gm = "c12e%d_p.q.b" % idx
     vg = None if rng.random() < 0.6 else gen_version(rng)
     if evo == "edit_keepver" and vg is None:
         vg = gen_version(rng)
@@ -997,7 +1003,7 @@ def stream_evolution(ctx, quick):
         scs.append(gen_evo(rng, i, "inproc", "fs" if rng.random() < 0.75 else "mem"))
         i += 1
     nchild = 10 if quick else 90
-    child_evos = ["edit", "remove", "recluster", "modgone", "rename"] + EVOS
+    child_evos = ["edit", "remove", "recluster", "modgone", "midgone", "rename", "midgone"] + EVOS
     for k in range(nchild):
         evo = child_evos[k % len(child_evos)]
         cl = [(None, None), ("k:c", "k:c"), (None, "kd"), ("kc", None)][(k // 2 + k) % 4] if k >= 2 else [(None, None), ("k:c", "k:c")][k]
